@@ -6,6 +6,7 @@ call-pre, frame, assert.  A function whose body leaves the supported subset yiel
 `undecided` obligations, never `refuted`.
 """
 import ast
+import os
 import time
 import traceback
 import z3
@@ -498,10 +499,11 @@ class Verifier:
                     s2.assume(f)
                 for nm, f in K.ensures(post, a, payload):
                     self.add("post", nm, s2, f)
-                for name in invs:
-                    for nm, f in self.spec.invariant(name, post):
-                        self.add("inv", nm, s2, f)
-                self._frame(K, s2, pre_state, mods)
+                if not getattr(K, "lemma", False):
+                    for name in invs:
+                        for nm, f in self.spec.invariant(name, post):
+                            self.add("inv", nm, s2, f)
+                    self._frame(K, s2, pre_state, mods)
             else:
                 matching = [(e, w, l) for e, w, l in whens if exc_isa(payload.cls, e)]
                 if not matching and not any(exc_isa(payload.cls, e) for e in K.may_raise):
@@ -542,29 +544,57 @@ class Verifier:
             self.add("frame", "writes-within-modifies", st, z3.BoolVal(False), note="writes outside modifies: %s" % real)
 
     # -- solving ---------------------------------------------------------------------------------------
+    def _solve_group(self, oid):
+        obs = self._groups[oid]
+        status, ms, model_txt, note = "discharged", 0.0, None, ""
+        strategies = set()
+        for ob in obs:
+            r, dt, smodel, reason = self._check(ob)
+            ms += dt
+            if r == z3.unsat:
+                strategies.add(reason)
+                reason = ""
+            if r == z3.sat:
+                status = "refuted"
+                try:
+                    model_txt = self.spec.describe_model(smodel, ob)
+                except Exception as e:
+                    model_txt = "model unavailable: %s" % e
+                note = ob.note
+                break
+            if r == z3.unknown:
+                status = "undecided"
+                note = reason
+                break  # one undischarged path decides the status of the obligation
+        order = ["plain-fast", "plain", "qfi", "pre", "qf", "qfix"]
+        strat = max(strategies, key=order.index) if strategies and status == "discharged" else None
+        return oid, {"status": status, "ms": round(ms, 1), "paths": len(obs), "backend": "z3-%s" % z3.get_version_string(),
+                     "model": model_txt, "note": note, "strategy": strat}
+
     def _solve(self, out):
         groups = {}
         for ob in self.obls:
             groups.setdefault(ob.oid, []).append(ob)
-        for oid, obs in groups.items():
-            status, ms, model_txt, note = "discharged", 0.0, None, ""
-            for ob in obs:
-                r, dt, smodel, reason = self._check(ob)
-                ms += dt
-                if r == z3.sat:
-                    status = "refuted"
-                    try:
-                        model_txt = self.spec.describe_model(smodel, ob)
-                    except Exception as e:
-                        model_txt = "model unavailable: %s" % e
-                    note = ob.note
-                    break
-                if r == z3.unknown:
-                    status = "undecided"
-                    note = reason
-                    break  # one undischarged path decides the status of the obligation
-            out["results"][oid] = {"status": status, "ms": round(ms, 1), "paths": len(obs), "backend": "z3-%s" % z3.get_version_string(),
-                                   "model": model_txt, "note": note}
+        self._groups = groups
+        inner = int(os.environ.get("VERIF_INNER", "1"))
+        if inner > 1 and len(groups) >= 8:
+            # obligations are solved by forked children that inherit the generated VCs
+            global _SOLVER_SELF
+            _SOLVER_SELF = self
+            import multiprocessing as mp
+            with mp.get_context("fork").Pool(inner) as pool:
+                for oid, res in pool.imap_unordered(_solve_group_entry, list(groups), chunksize=1):
+                    out["results"][oid] = res
+        else:
+            for oid in groups:
+                out["results"][oid] = self._solve_group(oid)[1]
+
+
+_SOLVER_SELF = None
+
+
+def _solve_group_entry(oid):
+    return _SOLVER_SELF._solve_group(oid)
 
 
 _intro_n = [0]
@@ -585,6 +615,19 @@ def intro(goal):
         return z3.Implies(goal.arg(0), intro(goal.arg(1)))
     if z3.is_app_of(goal, z3.Z3_OP_ITE) and goal.sort() == z3.BoolSort():
         return z3.If(goal.arg(0), intro(goal.arg(1)), intro(goal.arg(2)))
+    if z3.is_eq(goal):
+        x, y = goal.arg(0), goal.arg(1)
+        # extensionality by hand: equal arrays / finite-map values are pointwise equal
+        for a, b in ((x, y), (y, x)):
+            if z3.is_app_of(b, z3.Z3_OP_ITE):
+                return z3.And(z3.Implies(b.arg(0), intro(a == b.arg(1))), z3.Implies(z3.Not(b.arg(0)), intro(a == b.arg(2))))
+        srt = x.sort()
+        if srt.kind() == z3.Z3_ARRAY_SORT:
+            _intro_n[0] += 1
+            k = z3.Const("k!g%d" % _intro_n[0], srt.domain())
+            return z3.simplify(z3.Select(x, k)) == z3.simplify(z3.Select(y, k))
+        if srt.kind() == z3.Z3_DATATYPE_SORT and srt.name().startswith("Map_") and srt.num_constructors() == 1:
+            return z3.And([intro(z3.simplify(srt.accessor(0, j)(x)) == z3.simplify(srt.accessor(0, j)(y))) for j in range(srt.constructor(0).arity())])
     return goal
 
 
@@ -671,7 +714,31 @@ def _ground_consts(fs):
     return out
 
 
-def preinstantiate(hyps, goal_i, rounds=2, cap=6, terms=None):
+def ext_witnesses(fs, cap=7):
+    """Skolemised extensionality for the finite-map terms of a query: for each pair (X, Y) of
+    ground Map terms a fresh key k with  X == Y  or  X and Y differ at k.  Valid formulas."""
+    maps = {}
+    for f in fs:
+        for sname, d in _obj_terms_of(f).items():
+            if sname.startswith("Map_"):
+                for i, t in d.items():
+                    maps.setdefault(sname, {})[i] = t
+    clauses, ks = [], {}
+    for sname, d in maps.items():
+        ts = list(d.values())[:cap]
+        for i in range(len(ts)):
+            for j in range(i + 1, len(ts)):
+                X, Y = ts[i], ts[j]
+                srt = X.sort()
+                dom, val = srt.accessor(0, 0), srt.accessor(0, 1)
+                _intro_n[0] += 1
+                k = z3.Const("k!x%d" % _intro_n[0], dom(X).sort().domain())
+                ks.setdefault(k.sort().name(), []).append(k)
+                clauses.append(z3.Or(X == Y, z3.Select(dom(X), k) != z3.Select(dom(Y), k), z3.Select(val(X), k) != z3.Select(val(Y), k)))
+    return clauses, ks
+
+
+def preinstantiate(hyps, goal_i, rounds=2, cap=6, terms=None, extra_terms=None):
     """Manual trigger set (DESIGN 2.6): instantiate single-variable universal hypotheses at
     the skolem constants of the goal and at the object-sorted constants of the query.
     Instances of valid hypotheses are valid: this only helps the solver."""
@@ -681,8 +748,10 @@ def preinstantiate(hyps, goal_i, rounds=2, cap=6, terms=None):
         terms = {}
         for sname, d in allc.items():
             if sname in ("Int", "Real", "Bool", "String"):
-                continue  # objects: every constant of the sort
-            terms[sname] = list(d.values())[:cap]
+                continue  # objects: the constants of the goal first, then every constant of the sort
+            first = list(consts.get(sname, {}).values())
+            rest = [x for k, x in d.items() if k not in consts.get(sname, {})]
+            terms[sname] = first + rest[:cap]
         # compound object terms of the goal and of the ground hypotheses (field reads)
         for f in [goal_i] + [h for h in _flatten(hyps) if not z3.is_quantifier(h)]:
             for sname, d in _obj_terms_of(f).items():
@@ -691,7 +760,11 @@ def preinstantiate(hyps, goal_i, rounds=2, cap=6, terms=None):
                     if len(lst) < cap + 6 and all(not z3.eq(t, x) for x in lst):
                         lst.append(t)
         for sname in ("Int",):
-            terms[sname] = [c for c in consts.get(sname, {}).values() if "!g" in c.decl().name()][:cap]
+            terms[sname] = ([c for c in consts.get(sname, {}).values() if "!g" in c.decl().name()]
+                            + [c for c in allc.get(sname, {}).values() if "!w" in c.decl().name()])[:cap + 2]
+    if extra_terms:
+        for sname, ts in extra_terms.items():
+            terms.setdefault(sname, []).extend(ts)
     extra, frontier = [], _flatten(hyps)
     seen = set()
     for _ in range(rounds):
@@ -710,9 +783,44 @@ def preinstantiate(hyps, goal_i, rounds=2, cap=6, terms=None):
                     new.append(z3.Implies(f.arg(0), z3.substitute_vars(q.body(), t)))
         extra += new
         frontier = _flatten(new)
-        if len(extra) > 400:
+        if len(extra) > 6000:
             break
     return extra
+
+
+def divmod_instances(fs):
+    """ground instances of the floor-division axioms (pyvc.ops.divmod_axioms) for the
+    pydiv/pymod terms and the integer products occurring in fs"""
+    from .ops import pydiv, pymod
+    dm, muls, seen = {}, {}, set()
+    stack = list(fs)
+    while stack:
+        x = stack.pop()
+        i = x.get_id()
+        if i in seen or z3.is_quantifier(x):
+            continue
+        seen.add(i)
+        if z3.is_app(x):
+            if x.decl().name() in ("pydiv", "pymod") and x.num_args() == 2:
+                dm[(x.arg(0).get_id(), x.arg(1).get_id())] = (x.arg(0), x.arg(1))
+            elif z3.is_mul(x) and x.num_args() == 2 and x.sort() == z3.IntSort():
+                muls[i] = x
+            stack.extend(x.children())
+    out = []
+    divisors = {}
+    for a, n in dm.values():
+        divisors[n.get_id()] = n
+        out.append(z3.Implies(n != 0, z3.And(a == n * pydiv(a, n) + pymod(a, n),
+                                             z3.Implies(n > 0, z3.And(pymod(a, n) >= 0, pymod(a, n) < n)),
+                                             z3.Implies(n < 0, z3.And(pymod(a, n) <= 0, pymod(a, n) > n)))))
+    for m in muls.values():
+        for n in divisors.values():
+            for k in (0, 1):
+                if z3.eq(m.arg(k), n):
+                    a = m.arg(1 - k)
+                    out.append(z3.Implies(n != 0, z3.And(pydiv(a * n, n) == a, pymod(a * n, n) == 0,
+                                                         pydiv(m, n) == a, pymod(m, n) == 0)))
+    return out[:200]
 
 
 def _check_one(hyps, goal, timeout, pre=True):
@@ -739,28 +847,35 @@ def _portfolio(self, ob):
     T = self.timeout_ms
     last = None
     g = intro(ob.goal)
-    for strat, budget in (("plain", 300), ("qfi", 3000), ("plain", 1500), ("pre", 3000), ("qf", 3000), ("plain", T), ("qfi", T), ("pre", T)):
+    plan = [("plain", 300), ("qfi", 3000), ("plain", 1500), ("pre", 3000), ("qf", 3000), ("plain", T), ("qfix", T), ("pre", T)]
+    hint = getattr(self, "hints", {}).get(ob.oid)
+    if hint:
+        # the strategy that discharged this obligation on the baseline goes first (ledger hint)
+        plan = [(hint, 4 * T)] + plan
+    for strat, budget in plan:
         if strat == "qf":
             if len(qf) == len(full):
                 continue
-            r, dt, s = _check_one(qf, ob.goal, min(budget, T), pre=False)
-        elif strat == "qfi":
+            r, dt, s = _check_one(qf, ob.goal, budget, pre=False)
+        elif strat in ("qfi", "qfix"):
             # quantifier-free core: ground hypotheses plus hand instances of the universal
             # ones at the constants of the query; a subset of valid consequences, so unsat is a proof
-            inst = preinstantiate(full, g)
-            core = [f for f in _flatten(list(full) + inst) if not _has_quant(f)]
+            ext, ks = ext_witnesses([g] + [h for h in _flatten(full) if not z3.is_quantifier(h)]) if strat == "qfix" else ([], {})
+            inst = preinstantiate(full, g, extra_terms=ks)
+            core = [f for f in _flatten(list(full) + inst) if not _has_quant(f)] + ext
+            core += divmod_instances(core + [g])
             s = z3.Solver()
-            s.set(timeout=min(budget, T))
+            s.set(timeout=budget)
             s.add(*core)
             s.add(z3.Not(g))
             t0 = time.time()
             r = s.check()
             dt = (time.time() - t0) * 1000
         else:
-            r, dt, s = _check_one(full, ob.goal, min(budget, T), pre=(strat == "pre"))
+            r, dt, s = _check_one(full, ob.goal, budget, pre=(strat == "pre"))
         total += dt
         if r == z3.unsat:
-            return r, total, None, ""
+            return r, total, None, ("plain-fast" if strat == "plain" and budget <= 300 else strat)
         if strat in ("plain", "pre"):
             last = (r, s)
             if r == z3.sat:
